@@ -21,6 +21,10 @@ back:
   followed by the rest of the target (the target `.` is *not* rewritten to empty
   by Go, so `Rel("a", ".") = "../."`).
 * `isSubpath`, `Resolve`: exactly as composed in `util/import.go`.
+
+`MemoryImportLocator.Resolve` is a map lookup on the unmodified path string and touches no
+file; it is not modelled. `importRuntime.Eval` hands `fmt.Sprint` of the evaluated path
+expression to the locator unchanged (the harness runs that route as well).
 -/
 namespace Ecal.Path
 
